@@ -82,6 +82,7 @@ for _meth, _cls in (("__and__", cnds.ConditionAnd), ("__or__", cnds.ConditionOr)
                 and (HasKind(self, cnds.KeyLike) or HasKind(other, cnds.KeyLike))
                 and (HasKind(self, cnds.IndexLike) or HasKind(other, cnds.IndexLike))},
         modifies=[],
+        inline_at_calls=True,       # callers execute the (short) real code; the contract is proved on its own
         witnesses=_witnesses,
         serves=["C02"],
         note="construction protocol: __new__ short-circuit, __init__ on the new object only",
